@@ -1,4 +1,6 @@
-//! Per-property drivers for the catalogue-based properties.
+//! Per-property specifications of the catalogue-based checks: which roots,
+//! which answer scripts, which oracle.  `run_catalogue` drives them; `replay`
+//! re-applies the same oracle to one recorded case.
 
 use crate::doc::*;
 use crate::engine::*;
@@ -19,85 +21,16 @@ const ASSUME_COMMON: &[&str] = &[
 const ASSUME_REF: &[&str] = &[
     "the reference interpreter (mc-core/src/reference.rs) is a second implementation of the documented semantics; a shared misunderstanding would go unnoticed",
     "identifier alphabet restricted to shapes on which camelCase is uncontroversial (no digits, no acronyms)",
+    "payloads whose map keys collide after parsing are compared on status and reports only (which entry wins is the definition of a map, not fixed by the statements)",
 ];
-
-fn all_roots(_: &Root) -> bool {
-    true
-}
 
 fn is_all_break(out: &Outcome) -> bool {
     let a = out.answers();
     !a.is_empty() && a.iter().all(|b| *b)
 }
 
-pub fn run_c01(e: &Engine) -> i32 {
-    let rec = Recorder::new("C01", e.tier);
-    let check = |_: &Case, _: &Script, out: &Outcome, _: &Outcome| check_c01(out);
-    e.sweep(
-        &SweepCfg { property: "C01", select: &all_roots, scripts: Scripts::Tree, sources: &[Src::Json, Src::Ov], adversarial: true, check: &check },
-        &rec,
-    );
-    rec.finish(
-        "model_checking",
-        "states = (catalogue type, payload) pairs: BFS closure of valid base payloads under ≤F injected faults, all small documents over the type's key universe, plus duplicate-key / non-canonical-number payloads through the second value source; per state the decision tree of Continue/Break answers of a recording error type is explored statelessly on the real code (complete up to the leaf bound, else switch-once and ≤d-deviation families). Oracle per execution: Ok ⇒ no report was made; Err ⇒ the returned error holds exactly the ids of all reports made (none dropped, none twice); no id is held twice at any hand-over. An outcome is non-trivial when it fails or yields a non-null value; distinct = distinct (type, value | sorted report list).",
-        ASSUME_COMMON,
-    )
-}
-
-pub fn run_c12(e: &Engine) -> i32 {
-    let rec = Recorder::new("C12", e.tier);
-    let check = |_: &Case, _: &Script, out: &Outcome, _: &Outcome| check_c12(out);
-    e.sweep(
-        &SweepCfg { property: "C12", select: &all_roots, scripts: Scripts::Tree, sources: &[Src::Json, Src::Ov], adversarial: true, check: &check },
-        &rec,
-    );
-    crate::deep::run_deep(e, &rec);
-    rec.finish(
-        "model_checking",
-        "same state space and answer-script exploration as C01 (every execution runs under catch_unwind), including duplicate keys / duplicated tags / non-canonical and non-finite numbers through the second value source; plus documents nested to depth 128 (built as text, parsed by serde_json) into the recursive catalogue types and serde_json::Value, run in a child process so that a stack overflow is attributed to its input. Oracle: the call returns.",
-        ASSUME_COMMON,
-    )
-}
-
-pub fn run_c03(e: &Engine) -> i32 {
-    let rec = Recorder::new("C03", e.tier);
-    let check = |c: &Case, s: &Script, out: &Outcome, keep: &Outcome| {
-        check_c03_frame(out)?;
-        check_c03_suffix(out)?;
-        check_c03_prefix(out, keep)?;
-        if is_all_break(out) || (s.default && s.prefix.is_empty()) {
-            check_c03_failfast(out, keep)?;
-        }
-        let _ = c;
-        Ok(())
-    };
-    e.sweep(
-        &SweepCfg { property: "C03", select: &all_roots, scripts: Scripts::Tree, sources: &[Src::Json, Src::Ov], adversarial: false, check: &check },
-        &rec,
-    );
-    rec.finish(
-        "model_checking",
-        "state space as C01 (canonical payloads). For every explored answer script: frame rule (after a Break answered in probe frame X nothing but hand-overs of the returned error happens until X exits), suffix rule (once all remaining answers are Break: no report, visit or user-function call; hand-overs climb towards the root; final error = reports made so far), prefix rule (log up to the first Break identical to the keep-going log), fail-fast corollary (all-Break run returns exactly the first keep-going report). The switch-once family C^k B^ω is always complete for every k up to the keep-going decision count.",
-        ASSUME_COMMON,
-    )
-}
-
-pub fn run_c04(e: &Engine) -> i32 {
-    let rec = Recorder::new("C04", e.tier);
-    let check = |c: &Case, _: &Script, out: &Outcome, _: &Outcome| check_c04(c.payload, out, c.tag_exempt);
-    e.sweep(
-        &SweepCfg { property: "C04", select: &all_roots, scripts: Scripts::Tree, sources: &[Src::Json, Src::Ov], adversarial: false, check: &check },
-        &rec,
-    );
-    rec.finish(
-        "model_checking",
-        "state space as C01 (canonical payloads, distinct values at sibling positions). For every execution under every explored answer script, every report is checked against the payload itself: the location resolves; kind/arity `actual` equals the value found there and is of a non-accepted kind / wrong length; a missing field is absent there; an unknown key is present there and not accepted; an unknown value is the string there; every hand-over location is the position of the direct child frame that failed (from the probe bracket structure) and a prefix of every report handed over; user functions receive their container's location.",
-        ASSUME_COMMON,
-    )
-}
-
 fn group_in(r: &Root, gs: &[&str]) -> bool {
-    gs.iter().any(|g| r.group == *g)
+    gs.is_empty() || gs.iter().any(|g| r.group == *g)
 }
 
 /// Filters both sides of a reference comparison to the report classes a property speaks about.
@@ -191,34 +124,24 @@ fn has_colliding_map_keys(cat: &Catalogue, ty: &Ty, d: &Doc) -> bool {
     }
 }
 
-fn run_reference(e: &Engine, prop: &'static str, groups: &'static [&'static str], cfg: RefCfg, rule: &str) -> i32 {
-    let rec = Recorder::new(prop, e.tier);
-    let select = move |r: &Root| groups.is_empty() || group_in(r, groups);
-    let check = move |c: &Case, _: &Script, out: &Outcome, _: &Outcome| {
-        if out.panicked.is_some() {
-            return Ok(());
-        }
-        let mut r = reference(c.cat, c.ty, c.payload);
-        r.required.retain(|s| (cfg.report_class)(&class_of_sig(s)));
-        r.optional.retain(|s| (cfg.report_class)(&class_of_sig(s)));
-        r.calls.retain(|u| (cfg.call_class)(u));
-        r.calls_optional.retain(|u| (cfg.call_class)(u));
-        let mut filtered = out.clone();
-        filtered.events.retain(|ev| match ev {
-            Event::Report { .. } | Event::Foreign { .. } => (cfg.report_class)(&class_of_event(ev)),
-            Event::UserFn(u) => (cfg.call_class)(u),
-            _ => true,
-        });
-        let amb = has_colliding_map_keys(c.cat, c.ty, c.payload);
-        check_reference(&filtered, &r, cfg.asp, amb)
-    };
-    e.sweep(
-        &SweepCfg { property: prop, select: &select, scripts: Scripts::KeepOnly, sources: &[Src::Json, Src::Ov], adversarial: false, check: &check },
-        &rec,
-    );
-    let mut assume: Vec<&str> = ASSUME_COMMON.to_vec();
-    assume.extend(ASSUME_REF);
-    rec.finish("model_checking", rule, &assume)
+
+fn reference_check(c: &Case, out: &Outcome, cfg: RefCfg, force_ambiguous: bool) -> Result<(), String> {
+    if out.panicked.is_some() {
+        return Ok(());
+    }
+    let mut r = reference(c.cat, c.ty, c.payload);
+    r.required.retain(|s| (cfg.report_class)(&class_of_sig(s)));
+    r.optional.retain(|s| (cfg.report_class)(&class_of_sig(s)));
+    r.calls.retain(|u| (cfg.call_class)(u));
+    r.calls_optional.retain(|u| (cfg.call_class)(u));
+    let mut filtered = out.clone();
+    filtered.events.retain(|ev| match ev {
+        Event::Report { .. } | Event::Foreign { .. } => (cfg.report_class)(&class_of_event(ev)),
+        Event::UserFn(u) => (cfg.call_class)(u),
+        _ => true,
+    });
+    let amb = force_ambiguous || has_colliding_map_keys(c.cat, c.ty, c.payload);
+    check_reference(&filtered, &r, cfg.asp, amb)
 }
 
 fn any_class(_: &ReportClass) -> bool {
@@ -228,105 +151,196 @@ fn any_call(_: &UserCall) -> bool {
     true
 }
 
-pub fn run_c02(e: &Engine) -> i32 {
-    run_reference(
-        e,
-        "C02",
-        &[],
-        RefCfg { asp: Aspects { status: true, value: false, reports: true, visited: true, calls: false }, report_class: any_class, call_class: any_call },
-        "states = (catalogue type, payload) as C01 (canonical payloads, both value sources); one keep-going execution of the real code per state and source. Oracle: the multiset of reports (kind, location, detail) satisfies required ⊆ observed ⊆ required ⊎ optional against the reference interpreter of the documented semantics, and the multiset of examined positions (probe Enter events) equals the interpreter's: every field, element and map entry is examined unless hidden by one of the four structural causes.",
-    )
+pub struct PropSpec {
+    pub id: &'static str,
+    /// catalogue groups (empty = all)
+    pub groups: &'static [&'static str],
+    pub scripts: Scripts,
+    pub adversarial: bool,
+    pub uses_reference: bool,
+    pub check: Box<dyn Fn(&Case, &Script, &Outcome, &Outcome) -> Result<(), String> + Sync>,
+    pub rule: &'static str,
 }
 
-pub fn run_c06(e: &Engine) -> i32 {
-    run_reference(
-        e,
-        "C06",
-        &["F", "D", "E"],
-        RefCfg { asp: Aspects::ALL, report_class: any_class, call_class: any_call },
-        "states = (container shape over several element types incl. nested containers and derived structs, payload): all single/double fault edits (drop/duplicate/append element → arity ±1, wrong kinds, unparseable and colliding map keys, comma-separated strings) of valid payloads plus all small documents. Oracle (reference interpreter): value (order, arity, None ⇔ null, set and map semantics, CS segments), BadSequenceLen with the whole sequence and the arity, unparseable key named and the call fails. Payloads whose map keys collide after parsing are compared on status and reports only.",
-    )
-}
-
-pub fn run_c07(e: &Engine) -> i32 {
-    fn cls(c: &ReportClass) -> bool {
-        !matches!(c, ReportClass::Foreign)
-    }
-    run_reference(
-        e,
-        "C07",
-        &["A", "B1", "B2", "B3", "B4", "C2", "G"],
-        RefCfg { asp: Aspects { status: true, value: true, reports: true, visited: true, calls: false }, report_class: cls, call_class: any_call },
-        "states = (derived struct / struct-like variant with rename, rename_all at container and variant level, skip/default/from in any declaration order, seven identifier shapes; payload over the key universe: identifier, camelCase, lowercase, renamed, near-misses incl. case flips, `_`-prefixed and whitespace-padded keys, skipped names). Oracle: the dumped value (keyed by Rust identifiers) equals the reference projection computed with independently derived effective keys; examined positions show which entry fed which field.",
-    )
-}
-
-pub fn run_c08(e: &Engine) -> i32 {
-    fn cls(c: &ReportClass) -> bool {
-        matches!(c, ReportClass::Missing | ReportClass::CustomMissing)
-    }
-    fn calls(u: &UserCall) -> bool {
-        matches!(u, UserCall::CustomMissing { .. } | UserCall::Map { .. })
-    }
-    run_reference(
-        e,
-        "C08",
-        &["A", "B1", "B2", "B4", "C2", "G"],
-        RefCfg { asp: Aspects::ALL, report_class: cls, call_class: calls },
-        "states = (derived type mixing default / default = expr / skip / missing_field_error / map / Option fields; payload with any subset of keys deleted, nulled or corrupted up to the fault bound, plus small documents). Oracle: MissingField(effective key) at the container's location exactly for non-skipped, non-defaulted, absent keys (null = present; present-but-invalid not additionally missing); the custom function called exactly then with exactly (key, location); defaults taken iff absent with map on top; a skipped field never examined (no probe Enter under any of its names).",
-    )
-}
-
-pub fn run_c10(e: &Engine) -> i32 {
-    run_reference(
-        e,
-        "C10",
-        &["C1", "C2", "D", "G"],
-        RefCfg { asp: Aspects { status: true, value: true, reports: true, visited: true, calls: false }, report_class: any_class, call_class: any_call },
-        "states = (unit-only and internally tagged enums with renamed variants, rename_all, 1–6 variants, variants sharing field names with different types, tag colliding with / near a field name, nested in containers; payload: every variant name, identifier, case variation, padded and truncated near-miss, non-string tag of every kind, missing tag, faults in the variant's fields). Oracle: variant selected (visible in the dump), the three tag reports with their locations, UnknownValue with the full ordered name list.",
-    )
-}
-
-pub fn run_c11(e: &Engine) -> i32 {
-    fn cls(c: &ReportClass) -> bool {
-        matches!(c, ReportClass::Foreign)
-    }
-    // part 2: self-relative rules under every answer script
-    let rec = Recorder::new("C11", e.tier);
-    let select = |r: &Root| group_in(r, &["A", "B2", "C1", "C2", "E", "G"]);
-    let check = |c: &Case, _: &Script, out: &Outcome, _: &Outcome| {
-        check_c11_rules(c, out)?;
-        // keep-going comparison with the reference (same as part 1) so that one evidence file covers both
-        if out.answers().iter().all(|b| !*b) && out.panicked.is_none() {
-            let mut r = reference(c.cat, c.ty, c.payload);
-            r.required.retain(|s| cls(&class_of_sig(s)));
-            r.optional.retain(|s| cls(&class_of_sig(s)));
-            let mut filtered = out.clone();
-            filtered.events.retain(|ev| match ev {
-                Event::Report { .. } | Event::Foreign { .. } => cls(&class_of_event(ev)),
-                _ => true,
-            });
-            check_reference(
-                &filtered,
-                &r,
-                Aspects { status: false, value: true, reports: true, visited: false, calls: true },
-                has_colliding_map_keys(c.cat, c.ty, c.payload),
-            )?;
+pub fn spec(prop: &str) -> Option<PropSpec> {
+    let all: &'static [&'static str] = &[];
+    Some(match prop {
+        "C01" => PropSpec {
+            id: "C01",
+            groups: all,
+            scripts: Scripts::Tree,
+            adversarial: true,
+            uses_reference: false,
+            check: Box::new(|_, _, out, _| check_c01(out)),
+            rule: "states = (catalogue type, payload) pairs: BFS closure of valid base payloads under ≤F injected faults, all small documents over the type's key universe, plus duplicate-key / non-canonical-number payloads through the second value source; per state the decision tree of Continue/Break answers of a recording error type is explored statelessly on the real code (complete up to the leaf bound, else switch-once and ≤d-deviation families). Oracle per execution: Ok ⇒ no report was made; Err ⇒ the returned error holds exactly the ids of all reports made (none dropped, none twice); no id is held twice at any hand-over. An outcome is non-trivial when it fails or yields a non-null value; distinct = distinct (type, value | sorted report list).",
+        },
+        "C12" => PropSpec {
+            id: "C12",
+            groups: all,
+            scripts: Scripts::Tree,
+            adversarial: true,
+            uses_reference: false,
+            check: Box::new(|_, _, out, _| check_c12(out)),
+            rule: "same state space and answer-script exploration as C01 (every execution runs under catch_unwind), including duplicate keys / duplicated tags / non-canonical and non-finite numbers through the second value source; plus documents nested as deep as serde_json accepts (127 containers) into the recursive catalogue types and serde_json::Value, each run in a child process so that a stack overflow is attributed to its input. Oracle: the call returns.",
+        },
+        "C03" => PropSpec {
+            id: "C03",
+            groups: all,
+            scripts: Scripts::Tree,
+            adversarial: false,
+            uses_reference: false,
+            check: Box::new(|_, s, out, keep| {
+                check_c03_frame(out)?;
+                check_c03_suffix(out)?;
+                check_c03_prefix(out, keep)?;
+                if is_all_break(out) || (s.default && s.prefix.is_empty()) {
+                    check_c03_failfast(out, keep)?;
+                }
+                Ok(())
+            }),
+            rule: "state space as C01 (canonical payloads). For every explored answer script: frame rule (after a Break answered in probe frame X nothing but hand-overs of the returned error happens until X exits), suffix rule (once all remaining answers are Break: no report, visit or user-function call; final error = reports made so far), prefix rule (log up to the first Break identical to the keep-going log), fail-fast corollary (all-Break run returns exactly the first keep-going report). The switch-once family C^k B^ω is always complete for every k up to the keep-going decision count.",
+        },
+        "C04" => PropSpec {
+            id: "C04",
+            groups: all,
+            scripts: Scripts::Tree,
+            adversarial: false,
+            uses_reference: false,
+            check: Box::new(|c, _, out, _| check_c04(c.payload, out, c.tag_exempt)),
+            rule: "state space as C01 (canonical payloads, distinct values at sibling positions). For every execution under every explored answer script, every report is checked against the payload itself: the location resolves; kind/arity `actual` equals the value found there and is of a non-accepted kind / wrong length; a missing field is absent there; an unknown key is present there and not accepted; an unknown value is the string there; every hand-over location is the position of the direct child frame that failed (from the probe bracket structure) and a prefix of every report handed over; user functions receive their container's location.",
+        },
+        "C02" => {
+            let cfg = RefCfg { asp: Aspects { status: true, value: false, reports: true, visited: true, calls: false }, report_class: any_class, call_class: any_call };
+            PropSpec {
+                id: "C02",
+                groups: all,
+                scripts: Scripts::KeepOnly,
+                adversarial: false,
+                uses_reference: true,
+                check: Box::new(move |c, _, out, _| reference_check(c, out, cfg, false)),
+                rule: "states = (catalogue type, payload) as C01 (canonical payloads, both value sources); one keep-going execution of the real code per state and source. Oracle: the multiset of reports (kind, location, detail) satisfies required ⊆ observed ⊆ required ⊎ optional against the reference interpreter of the documented semantics, and the multiset of examined positions (probe Enter events) equals the interpreter's: every field, element and map entry is examined unless hidden by one of the four structural causes.",
+            }
         }
-        Ok(())
-    };
+        "C06" => {
+            let cfg = RefCfg { asp: Aspects::ALL, report_class: any_class, call_class: any_call };
+            PropSpec {
+                id: "C06",
+                groups: &["F", "D", "E"],
+                scripts: Scripts::KeepOnly,
+                adversarial: false,
+                uses_reference: true,
+                check: Box::new(move |c, _, out, _| reference_check(c, out, cfg, false)),
+                rule: "states = (container shape over several element types incl. nested containers and derived structs, payload): all single/double fault edits (drop/duplicate/append element → arity ±1, wrong kinds, unparseable and colliding map keys, comma-separated strings) of valid payloads plus all small documents. Oracle (reference interpreter): value (order, arity, None ⇔ null, set and map semantics, CS segments), BadSequenceLen with the whole sequence and the arity, unparseable key named and the call fails.",
+            }
+        }
+        "C07" => {
+            fn cls(c: &ReportClass) -> bool {
+                !matches!(c, ReportClass::Foreign)
+            }
+            let cfg = RefCfg { asp: Aspects { status: true, value: true, reports: true, visited: true, calls: false }, report_class: cls, call_class: any_call };
+            PropSpec {
+                id: "C07",
+                groups: &["A", "B1", "B2", "B3", "B4", "C2", "G"],
+                scripts: Scripts::KeepOnly,
+                adversarial: false,
+                uses_reference: true,
+                check: Box::new(move |c, _, out, _| reference_check(c, out, cfg, false)),
+                rule: "states = (derived struct / struct-like variant with rename, rename_all at container and variant level, skip/default/from in any declaration order, seven identifier shapes; payload over the key universe: identifier, camelCase, lowercase, renamed, near-misses incl. case flips, `_`-prefixed and whitespace-padded keys, skipped names). Oracle: the dumped value (keyed by Rust identifiers) equals the reference projection computed with independently derived effective keys; examined positions show which entry fed which field.",
+            }
+        }
+        "C08" => {
+            fn cls(c: &ReportClass) -> bool {
+                matches!(c, ReportClass::Missing | ReportClass::CustomMissing)
+            }
+            fn calls(u: &UserCall) -> bool {
+                matches!(u, UserCall::CustomMissing { .. } | UserCall::Map { .. })
+            }
+            let cfg = RefCfg { asp: Aspects::ALL, report_class: cls, call_class: calls };
+            PropSpec {
+                id: "C08",
+                groups: &["A", "B1", "B2", "B4", "C2", "G"],
+                scripts: Scripts::KeepOnly,
+                adversarial: false,
+                uses_reference: true,
+                check: Box::new(move |c, _, out, _| reference_check(c, out, cfg, false)),
+                rule: "states = (derived type mixing default / default = expr / skip / missing_field_error / map / Option fields; payload with any subset of keys deleted, nulled or corrupted up to the fault bound, plus small documents). Oracle: MissingField(effective key) at the container's location exactly for non-skipped, non-defaulted, absent keys (null = present; present-but-invalid not additionally missing); the custom function called exactly then with exactly (key, location); defaults taken iff absent with map on top; a skipped field never examined (no probe Enter under any of its names).",
+            }
+        }
+        "C09" => {
+            fn cls(c: &ReportClass) -> bool {
+                matches!(c, ReportClass::UnknownKey | ReportClass::CustomUnknown)
+            }
+            fn calls(u: &UserCall) -> bool {
+                matches!(u, UserCall::CustomUnknown { .. })
+            }
+            let cfg = RefCfg { asp: Aspects { status: false, value: false, reports: true, visited: false, calls: true }, report_class: cls, call_class: calls };
+            PropSpec {
+                id: "C09",
+                groups: &["A", "B1", "B3", "B4", "C2", "D", "G"],
+                scripts: Scripts::KeepOnly,
+                adversarial: false,
+                uses_reference: true,
+                check: Box::new(move |c, _, out, _| reference_check(c, out, cfg, true)),
+                rule: "(a) states = (derived struct / tagged enum with and without deny_unknown_fields, default and custom function, skipped / renamed fields; payload extended with keys of the key universe: near-misses, `_`-prefixed, padded, names of skipped fields, the tag key). Oracle: each non-effective key yields exactly one UnknownKey(key, accepted = effective keys of non-skipped fields in declaration order) at the container's location, or one call of the custom function with exactly (key, accepted, location); known keys and the tag never. (b) for every type and every object position governed by a struct / tagged enum without the attribute, every base/faulty payload p and every set of ≤ 2 extra members from the key universe × 4 values: outcome(p) = outcome(p ⊎ extras) (value, report multiset, user calls; reports at an ancestor quoting the enclosing payload are compared modulo the quoted value) — self-relative, no model.",
+            }
+        }
+        "C10" => {
+            let cfg = RefCfg { asp: Aspects { status: true, value: true, reports: true, visited: true, calls: false }, report_class: any_class, call_class: any_call };
+            PropSpec {
+                id: "C10",
+                groups: &["C1", "C2", "D", "G"],
+                scripts: Scripts::KeepOnly,
+                adversarial: false,
+                uses_reference: true,
+                check: Box::new(move |c, _, out, _| reference_check(c, out, cfg, false)),
+                rule: "states = (unit-only and internally tagged enums with renamed variants, rename_all, 1–6 variants, variants sharing field names with different types, tag colliding with / near a field name, nested in containers; payload: every variant name, identifier, case variation, padded and truncated near-miss, non-string tag of every kind, missing tag, faults in the variant's fields). Oracle: variant selected (visible in the dump), the three tag reports with their locations, UnknownValue with the full ordered name list.",
+            }
+        }
+        "C11" => {
+            fn cls(c: &ReportClass) -> bool {
+                matches!(c, ReportClass::Foreign)
+            }
+            let cfg = RefCfg { asp: Aspects { status: false, value: true, reports: true, visited: false, calls: true }, report_class: cls, call_class: any_call };
+            PropSpec {
+                id: "C11",
+                groups: &["A", "B2", "C1", "C2", "E", "G"],
+                scripts: Scripts::Tree,
+                adversarial: false,
+                uses_reference: true,
+                check: Box::new(move |c, _, out, _| {
+                    check_c11_rules(c, out)?;
+                    if out.answers().iter().all(|b| !*b) {
+                        reference_check(c, out, cfg, false)?;
+                    }
+                    Ok(())
+                }),
+                rule: "states = (catalogue type using from / try_from by value and by reference / map / validate / field-level error = RecB at field and container level; payload making any subset of the stages fail). Keep-going run: user-function calls (name, argument, outcome), foreign reports and result value equal the reference interpreter's. Every explored answer script: a conversion function runs only right after its intermediate value's probe exited ok; map runs only when nothing was reported in its container; validate at most once per container, only with nothing reported in it; a ConvErr/ValErr report directly follows the user function that failed; each RecB error is handed to RecA exactly once.",
+            }
+        }
+        _ => return None,
+    })
+}
+
+pub fn run_catalogue(e: &Engine, prop: &str) -> i32 {
+    let sp = spec(prop).expect("catalogue property");
+    let rec = Recorder::new(sp.id, e.tier);
+    let groups = sp.groups;
+    let select = move |r: &Root| group_in(r, groups);
     e.sweep(
-        &SweepCfg { property: "C11", select: &select, scripts: Scripts::Tree, sources: &[Src::Json, Src::Ov], adversarial: false, check: &check },
+        &SweepCfg { property: sp.id, select: &select, scripts: sp.scripts, sources: &[Src::Json, Src::Ov], adversarial: sp.adversarial, check: &*sp.check },
         &rec,
     );
+    if sp.id == "C12" {
+        crate::deep::run_deep(e, &rec);
+    }
+    if sp.id == "C09" {
+        crate::invariance::run_extras(e, &rec);
+    }
     let mut assume: Vec<&str> = ASSUME_COMMON.to_vec();
-    assume.extend(ASSUME_REF);
-    let r2 = rec.finish(
-        "model_checking",
-        "states = (catalogue type using from / try_from by value and by reference / map / validate / field-level error = RecB at field and container level; payload making any subset of the stages fail). Keep-going run: user-function calls (name, argument, outcome), foreign reports and result value equal the reference interpreter's. Every explored answer script: a conversion function runs only right after its intermediate value's probe exited ok, with that value, at most once per entry; map runs only when no report was made before it; validate at most once, only with zero reports before it; a ConvErr/ValErr yields exactly one foreign report; each RecB error is handed to RecA exactly once.",
-        &assume,
-    );
-    r2
+    if sp.uses_reference {
+        assume.extend(ASSUME_REF);
+    }
+    rec.finish("model_checking", sp.rule, &assume)
 }
 
 /// Self-relative rules of C11, valid under every answer script.
@@ -434,46 +448,3 @@ fn check_c11_rules(_c: &Case, out: &Outcome) -> Result<(), String> {
     Ok(())
 }
 
-pub fn run_c09(e: &Engine) -> i32 {
-    // (a) reference comparison under deny_unknown_fields
-    fn cls(c: &ReportClass) -> bool {
-        matches!(c, ReportClass::UnknownKey | ReportClass::CustomUnknown)
-    }
-    fn calls(u: &UserCall) -> bool {
-        matches!(u, UserCall::CustomUnknown { .. })
-    }
-    let rec = Recorder::new("C09", e.tier);
-    let groups: &[&str] = &["A", "B1", "B3", "B4", "C2", "D", "G"];
-    let select = |r: &Root| group_in(r, groups);
-    let cfg = RefCfg { asp: Aspects { status: false, value: false, reports: true, visited: false, calls: true }, report_class: cls, call_class: calls };
-    let check = move |c: &Case, _: &Script, out: &Outcome, _: &Outcome| {
-        if out.panicked.is_some() {
-            return Ok(());
-        }
-        let mut r = reference(c.cat, c.ty, c.payload);
-        r.required.retain(|s| (cfg.report_class)(&class_of_sig(s)));
-        r.optional.retain(|s| (cfg.report_class)(&class_of_sig(s)));
-        r.calls.retain(|u| (cfg.call_class)(u));
-        r.calls_optional.retain(|u| (cfg.call_class)(u));
-        let mut filtered = out.clone();
-        filtered.events.retain(|ev| match ev {
-            Event::Report { .. } | Event::Foreign { .. } => (cfg.report_class)(&class_of_event(ev)),
-            Event::UserFn(u) => (cfg.call_class)(u),
-            _ => true,
-        });
-        check_reference(&filtered, &r, cfg.asp, true)
-    };
-    e.sweep(
-        &SweepCfg { property: "C09", select: &select, scripts: Scripts::KeepOnly, sources: &[Src::Json, Src::Ov], adversarial: false, check: &check },
-        &rec,
-    );
-    // (b) invariance under extra keys without the attribute
-    crate::invariance::run_extras(e, &rec);
-    let mut assume: Vec<&str> = ASSUME_COMMON.to_vec();
-    assume.extend(ASSUME_REF);
-    rec.finish(
-        "model_checking",
-        "(a) states = (derived struct / tagged enum with and without deny_unknown_fields, default and custom function, skipped / renamed fields; payload extended with keys of the key universe: near-misses, `_`-prefixed, padded, names of skipped fields, the tag key). Oracle: each non-effective key yields exactly one UnknownKey(key, accepted = effective keys of non-skipped fields in declaration order) at the container's location, or one call of the custom function with exactly (key, accepted, location); known keys and the tag never. (b) for every type without the attribute, every base/faulty payload p and every set of ≤ 2 extra members from the key universe × 3 values: outcome(p) = outcome(p ⊎ extras) (value, report multiset, user calls) — self-relative, no model.",
-        &assume,
-    )
-}
